@@ -26,6 +26,7 @@ from mir import Origins, strip, const_int
 from rules.c17 import shape
 import e1
 
+THOROUGH_CONFIGS = ("release", "arbitrary")
 LEVEL = "other"
 A = "stun_types::attribute::"
 IN_LIMIT = 65531
